@@ -3,6 +3,12 @@ import re
 from .. import build, core, flow, gens
 from ..core import hx, unhx
 
+def quadratic(n, op=" + ", lp="( ", rp=" )"):
+    x = "a"
+    for k in range(2, n):
+        x = "a" + op + lp + x + rp + (op + "a") * max(n - k - 2, 0)
+    return x
+
 def deep_families(ns):
     fams = {
         "paren": lambda n: "(" * n + "1" + ")" * n,
@@ -28,6 +34,11 @@ def deep_families(ns):
         "semis": lambda n: "1;" * n,
         "list_wide": lambda n: "[" + "1," * n + "1]",
         "mixed": lambda n: "(-[" * n + "1" + "])" * n,
+        # nested parenthesised chains: parser recursion stays shallow (depth restored after every sub-parse) but the TREE
+        # grows by the chain length at every level - height ~ n^2/2 for input size ~ n^2
+        "quadratic": lambda n: quadratic(min(n, 400)),
+        "quadratic_not": lambda n: quadratic(min(n, 300), " not in "),
+        "quadratic_list": lambda n: quadratic(min(n, 300), " + ", "[", "]"),
     }
     for name, f in fams.items():
         for n in ns:
@@ -48,7 +59,7 @@ class P:
         syms = gens.SYMBOLS
         if tier == "quick":
             strs = list(gens.symbol_strings(syms, 2)) + [a + b + c for a in syms[::3] for b in syms for c in syms[1::4]]
-            ns = [10, 100, 300, 1000, 10000, 100000]
+            ns = [10, 30, 50, 100, 255, 256, 257, 300, 1000, 10000, 100000]
             nrand = 3000
         else:
             strs = list(gens.symbol_strings(syms, 3))
